@@ -291,40 +291,116 @@ def check_dispatch(c, f, loop):
             c.check(bool(brk), f, t4[0].ast if t4 else t3[0].ast, 'a true result stops the run', kind='path', tag='callback-stop')
 
 
+def _outcome_value(e, kind, flags, depth=0):
+    """three-valued value of a test under the outcome *kind* of the last expect(): 'TEXT' (child.after is the matched text), 'EOF' or
+    'TIMEOUT' (child.after is that class).  None = this rule cannot tell."""
+    if depth > 6:
+        return None
+    if isinstance(e, ast.Constant) and isinstance(e.value, bool):
+        return e.value
+    if isinstance(e, ast.UnaryOp) and isinstance(e.op, ast.Not):
+        v = _outcome_value(e.operand, kind, flags, depth + 1)
+        return None if v is None else (not v)
+    if isinstance(e, ast.BoolOp):
+        vs = [_outcome_value(x, kind, flags, depth + 1) for x in e.values]
+        if isinstance(e.op, ast.And):
+            return False if any(v is False for v in vs) else (True if all(v is True for v in vs) else None)
+        return True if any(v is True for v in vs) else (False if all(v is False for v in vs) else None)
+    if isinstance(e, ast.Name) and e.id in flags:
+        return _outcome_value(flags[e.id], kind, {k: v for k, v in flags.items() if k != e.id}, depth + 1)
+    if isinstance(e, ast.Call) and dotted(e.func) == 'isinstance' and len(e.args) == 2 and norm(e.args[0]) == 'child.after':
+        t = norm(e.args[1])
+        if isinstance(e.args[1], ast.Name) and ('=' + t) in flags:
+            t = norm(flags['=' + t])
+        if 'string_type' in t or t in ('str', 'bytes', '(str, bytes)', '(bytes, str)'):
+            return kind == 'TEXT'
+        if t in ('type',):
+            return kind != 'TEXT'
+        return None
+    if isinstance(e, ast.Compare) and len(e.ops) == 1:
+        l, op, r = norm(e.left), e.ops[0], e.comparators[0]
+        if isinstance(op, (ast.Is, ast.Eq, ast.IsNot, ast.NotEq)) and {l, norm(r)} & {'child.after'} and ({l, norm(r)} - {'child.after'}) <= {'EOF', 'TIMEOUT'} \
+                and len({l, norm(r)}) == 2:
+            which = ({l, norm(r)} - {'child.after'}).pop()
+            v = (kind == which)
+            return v if isinstance(op, (ast.Is, ast.Eq)) else (not v)
+        if isinstance(op, (ast.In, ast.NotIn)) and l == 'child.after' and isinstance(r, (ast.Tuple, ast.List, ast.Set)) \
+                and all(norm(x) in ('EOF', 'TIMEOUT') for x in r.elts):
+            v = kind in [norm(x) for x in r.elts]
+            return v if isinstance(op, ast.In) else (not v)
+        return None
+    if norm(e) in ('child.flag_eof', 'child.eof()'):
+        return True if kind == 'EOF' else (False if kind == 'TIMEOUT' else None)
+    return None
+
+
 def check_eof_stops(c, f, loop):
     """expect() keeps answering EOF once the stream has ended (C04), so a loop iteration whose outcome was EOF must be the last one:
-    otherwise run(cmd, events={EOF: f}) calls f again and again and never returns"""
+    otherwise run(cmd, events={EOF: f}) calls f again and again and never returns.  A TIMEOUT that was an event and has been answered
+    is NOT the end: the output that follows, and the events in it, still belong to the result.
+    Every test of the loop is evaluated under the three outcomes of expect() (matched text / EOF / TIMEOUT in child.after); an edge
+    that contradicts the outcome is closed, and the question is whether the top of the loop can still be reached."""
     g = f.cfg
     hdr = g.node_of_stmt(loop)
     inloop = lambda n: n.stmt is not None and any(p is loop for p in [n.stmt] + list(parent_chain(n.stmt)))
-    stops = []
-    for t in g.nodes:
-        if t.kind != 'test' or t.ast is None or not inloop(t):
-            continue
-        r = relation(t.ast)
-        lab = None
-        if r and r[0] in ('is', 'eq') and {norm(r[1]), norm(r[2])} == {'child.after', 'EOF'}:
-            lab = r[3]
-        else:
-            co, tl = truth(t.ast)
-            if norm(co) in ('child.flag_eof', 'child.eof()'):
-                lab = tl
-        if lab is None:
-            continue
-        nxt = [s for s, l in t.succ if l == lab]
-        if nxt and g.path(nxt[0], {hdr}, skip_labels=('exc', 'raise')) is None and nxt[0] is not hdr:
-            stops.append(t)
     exps = cfg_nodes_with_call(f, lambda k: callee_last(k) == 'expect')
     c.need(len(exps) == 1, 'run(): child.expect(...) not found')
     en = exps[0][0]
-    if not stops:
-        p = g.path(en, {hdr}, skip_labels=('exc', 'raise'), include_start=False)
-        c.bad(f, exps[0][1], 'when EOF is one of the events the iteration that saw EOF goes round the loop again (nothing tests for the end of the stream '
-              'on the normal path): expect() reports EOF again at once, the response is triggered again, and run() never returns unless a callback '
-              'returns true', witness='path back to the loop: ' + (g.describe_path(p) if p else '?'), kind='path', tag='eof-event-loops')
-        return
-    ok, p = g.must_pass(en, {hdr}, set(stops), skip_labels=('exc', 'raise'))
-    c.check(ok, f, stops[0].ast, 'every way back to the top of the loop passes the end-of-stream test', witness=g.describe_path(p) if p else None, kind='path', tag='eof-event-loops')
+    # locals bound once, inside the loop, to an expression of the outcome (`matched = isinstance(child.after, ...)`)
+    flags = {}
+    counts = {}
+    for n in g.nodes:
+        if n.kind == 'stmt' and n.ast is not None:
+            for nm in assigned_names(n.ast):
+                counts[nm] = counts.get(nm, 0) + 1
+    for n in g.nodes:
+        if n.kind == 'stmt' and isinstance(n.ast, ast.Assign) and len(n.ast.targets) == 1 and isinstance(n.ast.targets[0], ast.Name) \
+                and counts.get(n.ast.targets[0].id) == 1 and inloop(n) and 'child.after' in norm(n.ast.value) \
+                and g.path(en, {n}, skip_labels=('exc', 'raise')) is not None:
+            flags[n.ast.targets[0].id] = n.ast.value
+    # (and locals bound once, anywhere, to the spawn's string types: `text_types = child.allowed_string_types`)
+    for n in g.nodes:
+        if n.kind == 'stmt' and isinstance(n.ast, ast.Assign) and len(n.ast.targets) == 1 and isinstance(n.ast.targets[0], ast.Name) \
+                and counts.get(n.ast.targets[0].id) == 1 and norm(n.ast.value) in ('child.allowed_string_types', '(child.string_type,)', 'child.string_type'):
+            flags['=' + n.ast.targets[0].id] = n.ast.value
+    tests = [t for t in g.nodes if t.kind == 'test' and t.ast is not None and inloop(t)]
+
+    def mentions_outcome(t):
+        tx = norm(t.ast)
+        return any(w in tx for w in ('child.after', 'EOF', 'TIMEOUT', 'flag_eof', 'child.eof(')) or any(isinstance(x, ast.Name) and x.id in flags for x in ast.walk(t.ast))
+
+    def closed_edges(kind, unknown_closed):
+        av = set()
+        unk = []
+        for t in tests:
+            v = _outcome_value(t.ast, kind, flags)
+            if v is True:
+                av.add((t, 'false'))
+            elif v is False:
+                av.add((t, 'true'))
+            elif mentions_outcome(t):
+                unk.append(t)
+                if unknown_closed:
+                    av.add((t, 'true'))
+                    av.add((t, 'false'))
+        return av, unk
+    # EOF: no way back to the top of the loop
+    av, unk = closed_edges('EOF', True)
+    p = g.path(en, {hdr}, skip_labels=('exc', 'raise'), include_start=False, avoid_edges=av)
+    if p is None and unk:
+        av2, _ = closed_edges('EOF', False)
+        p2 = g.path(en, {hdr}, skip_labels=('exc', 'raise'), include_start=False, avoid_edges=av2)
+        if p2 is not None and any(t in p2 for t in unk):
+            raise AnalysisError('run(): the loop tests the outcome of expect() in a form this rule cannot evaluate: `%s`' % norm(unk[0].ast)[:80])
+    c.check(p is None, f, exps[0][1], 'when EOF is one of the events the iteration that saw EOF is the last one (otherwise expect() reports EOF again at once, the '
+            'response is triggered again, and run() never returns unless a callback returns true)',
+            witness=('path back to the loop with child.after = EOF: ' + g.describe_path(p)) if p else None, kind='path', tag='eof-event-loops')
+    # TIMEOUT as an event: the loop goes on (unless the callback asked to stop)
+    av, unk = closed_edges('TIMEOUT', False)
+    p = g.path(en, {hdr}, skip_labels=('exc', 'raise'), include_start=False, avoid_edges=av)
+    c.check(p is not None, f, exps[0][1], 'a TIMEOUT that was one of the events and has been answered does not end the run: the top of the loop is reachable with '
+            'child.after = TIMEOUT (what the child writes afterwards, and the events in it, belong to the result)',
+            witness=None if p else 'every way back to `while` is closed when child.after is TIMEOUT', kind='path', tag='timeout-event-continues')
 
 
 def check_consumed(c, f, loop):
@@ -355,6 +431,8 @@ def check_consumed(c, f, loop):
 MUTANTS = [
     ('wait-outside-handlers', 'run', '        except EOF:\n            child_result_list.append(child.before)\n            break\n    child_result = child.string_type().join(child_result_list)', '        except EOF:\n            child_result_list.append(child.before)\n            break\n        child.expect(patterns, timeout=0)\n    child_result = child.string_type().join(child_result_list)', 'D2'),
     ('eof-event-keeps-looping', 'run', "            if child.after is EOF:\n", "            if child.after is EOF and not responses:\n", 'D7'),
+    ('timeout-event-stops', 'run', "            if child.after is EOF:\n", "            if child.after is EOF or child.after is TIMEOUT:\n", 'D7'),
+    ('marker-event-stops', 'run', "            if child.after is EOF:\n", "            if not isinstance(child.after, child.allowed_string_types):\n", 'D7'),
     ('eof-event-stop-removed', 'run', "            if child.after is EOF:\n                # EOF was one of the events: it has been answered, and the\n                # stream has ended, so there is nothing more to wait for.\n                break\n", "", 'D7'),
     ('list-via-dict', 'run', "    if isinstance(events, list):\n        patterns= [x for x,y in events]\n        responses = [y for x,y in events]\n    elif isinstance(events, dict):", "    if isinstance(events, list):\n        events = dict(events)\n    if isinstance(events, dict):", 'D1'),
     ('close-status-first', 'pty_spawn', "        self.flush()\n        with _wrap_ptyprocess_err():\n            # PtyProcessError may be raised if it is not possible to terminate\n            # the child.\n            self.ptyproc.close(force=force)\n        self.isalive()  # Update exit status from ptyproc", "        self.flush()\n        self.isalive()  # Update exit status from ptyproc\n        with _wrap_ptyprocess_err():\n            # PtyProcessError may be raised if it is not possible to terminate\n            # the child.\n            self.ptyproc.close(force=force)", 'D4'),
